@@ -667,7 +667,6 @@ func (x *Exec) intrinsicNamed(fn *ssa.Function, path, name string, args []Value)
 	return nil, false
 }
 
-
 // writeTo invokes w.Write(bytes of s).
 func (x *Exec) writeTo(w Iface, s Str) Value {
 	if w.T == nil {
